@@ -52,6 +52,16 @@ fn budget(tier: &str) -> Budget {
 fn make_spec(seed: u64, phase: &str, idx: u64, pool: &Pool) -> RunSpec {
     let mut rng = Rng::new(mix(seed, phase, idx));
     let mut spec = wgen::gen_workload(&mut rng, pool);
+    // very large inputs are for the fault-free phase: replaying them once per
+    // fault placement (or one byte per read) would take minutes
+    if phase != "f0" {
+        let big = |s: &RunSpec| s.files.iter().map(|f| f.1.len()).sum::<usize>() + s.stdin.as_ref().map(|b| b.len()).unwrap_or(0) + s.fifos.iter().map(|f| f.1.len()).sum::<usize>() > (1 << 20);
+        let mut tries = 0;
+        while big(&spec) && tries < 5 {
+            spec = wgen::gen_workload(&mut rng, pool);
+            tries += 1;
+        }
+    }
     // a pre-existing output that looks up to date: exactly as long as the new
     // document and newer than the input, but different (size/mtime heuristics)
     if spec.prior.is_empty() && rng.chance(1, 10) {
